@@ -79,6 +79,15 @@ CLAIMED["C04"] = dict(
     note="Trusted: the reachability model of vp/refmodel.py (closed junction-pipe valve = open pipe end; reached out-of-service junctions are "
          "calculated; unsupplied junction t_k = ambient not asserted). Non-converged supplied nets are discards.",
     ref="DESIGN.md 4/C04")
+CLAIMED["C06"] = dict(
+    technique="metamorphic property-based testing: recipe vs relabelled / row-permuted / re-ordered recipe, results joined on element identity",
+    text="Exploration: for generated hydraulic and heating recipes a transform tau (injective relabelling of every table incl. sparse, unsorted "
+         "and >= 1e5 labels, row permutation of every table, permutation of the creation order, sector all<->None which changes the component "
+         "order) is drawn; both recipes are built from scratch through the public API, solved with the same tight options and every result "
+         "column of every table is compared row by row via the label maps (NaN pattern included).",
+    note="Trusted: cross-run tolerances of DESIGN 2.3. Labels capped at 3e5. Nets in which a pump / compressor carries zero or reverse flow are "
+         "discarded (discontinuous lift: several solutions possible), as are verdict mismatches of such nets.",
+    ref="DESIGN.md 4/C06")
 NOT_YET = {}
 
 def main():
